@@ -199,3 +199,52 @@ pub fn impl_construct(kind: Kind, val: &RefVal, tid: &[u8; 12]) -> Result<Box<dy
 pub fn unknown_attrs_has(raw: &RawAttribute, t: u16) -> Option<bool> {
     UnknownAttributes::from_raw(raw).ok().map(|a| a.has_attribute(AttributeType::new(t)))
 }
+
+/// `msg.attribute::<T>()` for the `kind`'s T.  Ok(Some(obj)) = extracted; Ok(None) =
+/// MissingAttribute(T::TYPE); Err = any other error.
+pub fn impl_msg_attribute(
+    kind: Kind,
+    msg: &stun_types::message::Message,
+) -> Result<Option<Box<dyn AttributeWrite>>, String> {
+    macro_rules! get {
+        ($T:ty) => {{
+            match msg.attribute::<$T>() {
+                Ok(a) => Ok(Some(Box::new(a) as Box<dyn AttributeWrite>)),
+                Err(StunParseError::MissingAttribute(t)) if t == <$T>::TYPE => Ok(None),
+                Err(e) => Err(format!("{e:?}")),
+            }
+        }};
+    }
+    match kind {
+        Kind::Username => get!(Username),
+        Kind::MessageIntegrity => get!(MessageIntegrity),
+        Kind::ErrorCode => get!(ErrorCode),
+        Kind::UnknownAttributes => get!(UnknownAttributes),
+        Kind::Realm => get!(Realm),
+        Kind::Nonce => get!(Nonce),
+        Kind::MessageIntegritySha256 => get!(MessageIntegritySha256),
+        Kind::PasswordAlgorithm => get!(PasswordAlgorithm),
+        Kind::Userhash => get!(Userhash),
+        Kind::XorMappedAddress => get!(XorMappedAddress),
+        Kind::PasswordAlgorithms => get!(PasswordAlgorithms),
+        Kind::AlternateDomain => get!(AlternateDomain),
+        Kind::Software => get!(Software),
+        Kind::AlternateServer => get!(AlternateServer),
+        Kind::Fingerprint => get!(Fingerprint),
+        Kind::Priority => get!(Priority),
+        Kind::UseCandidate => get!(UseCandidate),
+        Kind::IceControlled => get!(IceControlled),
+        Kind::IceControlling => get!(IceControlling),
+    }
+}
+
+pub fn to_impl_creds(c: &crate::refimpl::parse::RefCreds) -> stun_types::message::MessageIntegrityCredentials {
+    use stun_types::message::{LongTermCredentials, ShortTermCredentials};
+    match c {
+        crate::refimpl::parse::RefCreds::Short(p) => ShortTermCredentials::new(p.clone()).into(),
+        // NB: the crate's constructor order is (username, password, realm)
+        crate::refimpl::parse::RefCreds::Long(u, r, p) => {
+            LongTermCredentials::new(u.clone(), p.clone(), r.clone()).into()
+        }
+    }
+}
